@@ -165,6 +165,27 @@ def make_concrete(n, m, props=("C02",), known=()):
     return h, dict(reset=common.nbdime_reset)
 
 
+def make_concrete_objects(keys=("a", "b"), props=("C02",), known=()):
+    """Objects over a few keys, each absent or holding a *concrete* scalar of
+    the small alphabet (null included) on either side: keys gained / lost /
+    replaced with values whose identity (`is None`), truthiness or hash the
+    code may look at -- operations the symbolic proxies cannot follow (pure
+    enumeration, no symbolic leaf)."""
+    vals = [None] + list(SMALL_ALPHABET)        # None here = key absent
+
+    def h(E):
+        a, b = {}, {}
+        for k in keys:
+            i = E.choice("a." + k, len(vals) + 1)
+            j = E.choice("b." + k, len(vals) + 1)
+            if i:
+                a[k] = vals[i - 1] if i > 1 else None
+            if j:
+                b[k] = vals[j - 1] if j > 1 else None
+        roundtrip(E, a, b, props, known)
+    return h, dict(reset=common.nbdime_reset)
+
+
 def shards(tier, props, known):
     """The shard list shared by C02 / C11 / C13: (family, key, params)."""
     kw = dict(props=tuple(props), known=tuple(known))
@@ -197,6 +218,7 @@ def shards(tier, props, known):
     for n in range(M + 1):
         for m in range(M + 1):
             out.append(("make_concrete", "alphabet-%dx%d" % (n, m), dict(n=n, m=m, **kw)))
+    out.append(("make_concrete_objects", "alphabet-objects", dict(keys=("a", "b") if tier == "quick" else ("a", "b", "c"), **kw)))
     P = len(pools.TEXT)
     step = 4
     for lo in range(0, P, step):
@@ -214,7 +236,7 @@ BOUNDS = {
         "objects": "all pairs of objects with keys within {a,b}, each value absent or drawn from docs.ALTS_QUICK",
         "strings": "all ordered pairs of the %d-string pool gen/pools.TEXT (enumeration over the pool, not symbolic)" % len(pools.TEXT),
         "string-elements": "lists of 0..2 pooled strings (6 pool items) followed by one symbolic scalar, all pairs",
-        "small-alphabet": "all pairs of lists of 0..2 (3 thorough) concrete scalars over {null, true, 1, 1.0, 0, 'a'} (enumeration; covers code that hashes leaves)",
+        "small-alphabet": "all pairs of lists of 0..2 (3 thorough) concrete scalars over {null, true, 1, 1.0, 0, 'a'} (enumeration; covers code that hashes leaves); all pairs of objects over keys {a,b} ({a,b,c} thorough), each key absent or holding null or one of those scalars",
     },
     "thorough": {
         "flat-lists": "all pairs of lists of 0..5 JSON scalars with total length <= 8, every leaf symbolic",
